@@ -620,7 +620,9 @@ class Data(Field):
             search_buffer = raw[offset:]
 
         count = search_buffer.find(until_marker)
-        assert count >= 0
+        if count < 0:
+            # not an assert: the check must survive 'python -O'
+            raise Exception("The delimiter %r was not found" % (until_marker, ))
 
         extra_count = 0
         if self.include_delimiter:
@@ -665,7 +667,10 @@ class Data(Field):
                         # a field selected at run time has no slot of its own
                         self.delimiter_to_be_included = match.group()
             else:
-                assert False
+                raise Exception(
+                    "The delimiter (regular expression %r) was not found" %
+                    (until_marker.pattern, )
+                )
 
         next_offset = offset + count
         setattr(pkt, self.field_name, raw[offset:next_offset])
